@@ -5,6 +5,7 @@ import MsPack.Cabx.OutName
 import MsPack.Cabx.Modes
 import MsPack.Lzss.Decoder
 import MsPack.Oab.Crc32
+import MsPack.Huff
 import MsPack.Spec.CabEncode
 import MsPack.Spec.Lzss
 /-
@@ -137,6 +138,17 @@ def handle (toks : List String) : HM State Bool := do
     | some m, some ts =>
       emit s!"prim lzssenc {optHex (some (Lzss.encode ts))} {outDigest (Lzss.expand ts (Lzss.initRing m)).out.toList}"
     | _, _ => emit "prim lzssenc bad-args"
+    return true
+  | ["prim", "mdt", _kind, nsyms, nbits, _tsize, lensHex] =>
+    -- make_decode_table(nsyms, nbits, length, table): the return value only (0 = table accepted), by the
+    -- acceptance rule `Huff.accepts`; the table contents are not modelled (the harness prints their hash)
+    match parseNat nsyms, parseNat nbits, parseHex lensHex with
+    | some ns, some nb, some bs =>
+      if bs.length < ns then emit "prim mdt bad-args"
+      else
+        let lens := (bs.take ns).map (·.toNat)
+        emit s!"prim mdt {if Huff.accepts nb lens = .reject then 1 else 0} -"
+    | _, _, _ => emit "prim mdt bad-args"
     return true
   | ["prim", "encint", hex] =>
     -- chmd.c read_encint on the bytes (end = p + len): value, bytes consumed, *err
